@@ -103,6 +103,25 @@ pub fn build(
         return Ok(None);
     };
 
+    // The values must be representable in the base type; an unsigned base also takes
+    // the two's-complement spelling of a negative value (`-1` for "all bits set").
+    let is_signed = match &ty {
+        Type::Raw(path) => match path.last() {
+            Some(name) => matches!(name.as_str(), "i8" | "i16" | "i32" | "i64" | "i128"),
+            None => false,
+        },
+        _ => false,
+    };
+    let (min_value, max_value): (i128, i128) = match (size, is_signed) {
+        (1, true) => (-0x80, 0x7f),
+        (1, false) => (-0x80, 0xff),
+        (2, true) => (-0x8000, 0x7fff),
+        (2, false) => (-0x8000, 0xffff),
+        (4, true) => (-0x8000_0000, 0x7fff_ffff),
+        (4, false) => (-0x8000_0000, 0xffff_ffff),
+        _ => (i128::MIN, i128::MAX),
+    };
+
     let mut fields: Vec<(String, isize)> = vec![];
     let mut last_field = Some(0);
     let mut default_index = None;
@@ -121,6 +140,11 @@ pub fn build(
                 format!("implicit value for case `{name}` of enum `{resolvee_path}` overflows")
             })?,
         };
+        if (value as i128) < min_value || (value as i128) > max_value {
+            anyhow::bail!(
+                "the value {value} of case `{name}` of enum `{resolvee_path}` does not fit its base type `{ty}`"
+            );
+        }
         fields.push((name.0.clone(), value));
 
         for attribute in attributes {
